@@ -15,7 +15,7 @@ RULE = (
     "Enumerated exhaustively: nx, ny in 2..9 x even mode pairs from {2,4,6,8,12,20}^2 x halo in {0, default, 1.2 x-cells} x "
     "{footprint, dispersion} = 13824 solver configurations on a fixed height-dependent MOST profile with a fixed non-symmetric "
     "source and tower. Hypothesis part: sizes up to 17, any profile, halo kind, modes below/at/above per axis, tower, source, an "
-    "upper level. Oracle: the call either raises or returns fields of exactly the source's shape with X=i*dx, Y=j*dy, whose "
+    "upper level; one case in ten hands over a negative halo (allowed outcomes: an error, or fields on exactly the source grid). Oracle: the call either raises or returns fields of exactly the source's shape with X=i*dx, Y=j*dy, whose "
     "level-0 flux equals an independent numpy.fft low-pass of the padded source (dispersion) or of the point-reflected unit cell at "
     "the tower (footprint; also for a tower displaced from its node by (0.37, 0.62) cells, against the low-pass of a delta at that point) over the retained wavenumber set (exact: the sweep starts from the surface flux); with halo=0 the "
     "spectrum of the result equals that of the full-mode result strictly inside the cut-off and vanishes strictly outside; mode "
@@ -66,6 +66,10 @@ def _case(draw):
     m = draw(gen.modes(case, px, py))
     case["modes"] = [512, 512] if m is None else m
     case["footprint"] = draw(st.booleans())
+    if draw(st.integers(0, 9)) == 0:
+        # a halo that is not a width at all: the call may refuse it, it may not hand back a clipped field
+        dx_, _ = gen.spacing_of(case)
+        case["halo"] = {"kind": "negative", "value": -float(draw(st.integers(0, 2)) + draw(gen.fl(0.05, 0.95))) * dx_}
     case["tower"] = draw(gen.tower(case))
     case["upper"] = draw(st.integers(1, len(z) - 1))
     case["q"] = draw(gen.source(case["ny"], case["nx"]))
@@ -76,6 +80,28 @@ def strategy(tier):
     return _case()
 
 
+def _negative_halo(case, out, q0, z, prof, dom, dx, dy):
+    """Either an error, or fields on exactly the source grid - the two outcomes the property allows."""
+    nx, ny = case["nx"], case["ny"]
+    fpm = case["footprint"]
+    im, jm = case["tower"]
+    out.label("footprint" if fpm else "dispersion", "halo=negative")
+    out.nontrivial = True
+    modes = (int(case["modes"][0]), int(case["modes"][1]))
+    try:
+        grid, conc, flx = sut.solver()(q0, z, prof, dom, [0, case["upper"]], modes=modes, halo=case["halo"]["value"],
+                                       meas_pt=(im * dx, jm * dy) if fpm else (0.0, 0.0), footprint=fpm, precision="double")
+    except Exception as e:
+        out.label("raised:" + type(e).__name__)
+        return out
+    out.label("negative-halo-accepted")
+    for name, a in (("conc", conc), ("flx", flx), ("X", grid[0]), ("Y", grid[1]), ("Z", grid[2])):
+        if np.shape(a) != (2, ny, nx):
+            out.bad(f"halo {case['halo']['value']} was accepted and {name} came back with shape {np.shape(a)} for a {ny}x{nx} source "
+                    f"({'footprint' if fpm else 'dispersion'} mode): a silently cropped field")
+    return out
+
+
 def check_case(case):
     out = Outcome()
     z, prof = gen.build_profiles(case["prof"])
@@ -84,6 +110,8 @@ def check_case(case):
     dom = gen.domain_of(case)
     dx, dy = gen.spacing_of(case)
     hv = case["halo"]["value"]
+    if case["halo"]["kind"] == "negative":
+        return _negative_halo(case, out, q0, z, prof, dom, dx, dy)
     px, py, h = gen.pad_widths(case, hv)
     nxe, nye = nx + 2 * px, ny + 2 * py
     modes = (int(case["modes"][0]), int(case["modes"][1]))
